@@ -28,6 +28,7 @@ func init() {
 			{ID: "C07.4", Doc: "ids issued atomically from a 64-bit counter", Floor: 5, Run: c07r4},
 			{ID: "C07.5", Doc: "fresh buffered reply channel per query", Floor: 2, Run: c07r5},
 			{ID: "C07.6", Doc: "datagram payload and source processed together", Floor: 2, Run: c07r6},
+			{ID: "C07.7", Doc: "every datagram is decoded into a fresh message: no field of an earlier datagram can survive into a later one", Floor: 1, Run: c07r7},
 		},
 	})
 }
@@ -586,4 +587,38 @@ func (w *World) fieldThroughHelper(v ssa.Value) []*Term {
 		}
 	}
 	return nil
+}
+
+// c07r7: bencode.Unmarshal leaves absent keys untouched, so the decode target must start from the
+// zero value for every datagram: a local of the function that decodes, not a parameter, field or
+// captured variable that outlives the call.
+func c07r7(w *World, rr *RuleRun) {
+	pp := w.P.Func("(*Server).processPacket")
+	unm := w.P.ExtFunc("github.com/anacrolix/torrent/bencode", "Unmarshal")
+	msgT := w.P.NamedType("krpc", "Msg")
+	n := 0
+	for _, f := range w.regionFuncs(pp) {
+		for _, site := range w.CallsIn(f, unm, false) {
+			c := callInstrCommon(site)
+			if len(c.Args) != 2 {
+				continue
+			}
+			v := c.Args[1]
+			if mi, ok := v.(*ssa.MakeInterface); ok {
+				v = mi.X
+			}
+			pt, ok := v.Type().Underlying().(*types.Pointer)
+			if !ok || !types.Identical(pt.Elem(), msgT) {
+				continue
+			}
+			n++
+			al, isAlloc := v.(*ssa.Alloc)
+			fresh := isAlloc && al.Parent() == site.Parent()
+			// and not written before the decode (a literal with preset fields would be fine, a reused one not)
+			rr.At(w, site, "the datagram is decoded into a fresh krpc.Msg local to the decoding call", fresh, "target "+trunc(w.TS.Of(c.Args[1]).String(), 80))
+		}
+	}
+	if n == 0 {
+		rr.Oblige(shortFuncName(pp), "the datagram is decoded into a fresh krpc.Msg local to the decoding call", w.P.Pos(pp.Pos()), false, "no bencode.Unmarshal into a krpc.Msg on the packet path")
+	}
 }
